@@ -65,7 +65,7 @@ std::ostream &CurrentException(std::ostream &os) { return os; }
 std::ostream &CurrentExceptionExtra(std::ostream &os) { return os; }
 int opt_store_doublecheck = 1;   // squid -S: validateOneSlot() runs for every slot
 int opt_foreground_rebuild = 1;  // no "pause after 50 ms" logic (wall-clock independent)
-namespace Store { Controller &Root() { alignas(16) static char fake[sizeof(void *) * 4]; return *reinterpret_cast<Controller *>(fake); } }
+namespace Store { Controller &Root() { alignas(16) static char fake[sizeof(Controller)]; return *reinterpret_cast<Controller *>(fake); } }
 bool Store::Controller::markedForDeletion(const cache_key *) const { return false; } // nothing is being deleted while indexing
 
 struct SegRec { char name[64]; void *mem; off_t size; };
@@ -312,6 +312,8 @@ static void rebuild(const unsigned nslot, const unsigned nkey, const bool saneOn
             vf_assert(!truncated[id], "truncated slot in the chain of a readable entry");
             const Ipc::StoreMap::Slice &slice = sd->map->readableSlice(fileno, id);
             vf_assert(slice.size == disk[id].payloadSize && slice.size > 0, "slice size is the payload size recorded in the slot header");
+            vf_assert(slice.size <= PAYLOAD, "slice is larger than the payload area of a slot");
+            vf_assert(disk[id].key[0] == disk[c.ids[0]].key[0] && disk[id].key[1] == disk[c.ids[0]].key[1], "chain mixes slots written for different keys");
             total += slice.size;
         }
         // KNOWN-FINDING candidate 1: an entry whose inode/metadata states a total size larger than the payload of all its
